@@ -17,7 +17,8 @@ Definition c22_one (c : c22case) : N * (bool * bool) :=
         let cok := match der0 with Some d => ctx_ok nrel base (norm_db d) M | None => true end in
         if N.eqb path 0 && negb cok then (0, (true, true))
         else
-          let cls := if forallb bound_before_use P then 0 else 1 in
+          let cls := if negb (forallb bound_before_use P) then 1
+                     else if cyclic_recursion P M then 3 else 0 in
           let items :=
             flat_map (fun ra : rel * list (tuple * option ptree) =>
               let r := fst ra in
